@@ -23,6 +23,8 @@ func init() {
 			"NOT decided: interleavings beyond the lock discipline, sync.Map internals, attribute.Set equality semantics.",
 		"client.Metadata.Get is case-insensitive", "attribute.NewSet is injective on (key, value-list) pairs built with String/StringSlice")
 	register("C10", &core.Rule{ID: "C10.1", Title: "admission is one critical section; size only under the lock", Mod: core.ModCBP, Floor: 4, Run: c10_1})
+	register("C10", &core.Rule{ID: "C10.6", Title: "no refusal after the shard is stored; a stored shard is started and counted", Mod: core.ModCBP, Floor: 3, Run: c10_1})
+	register("C05", &core.Rule{ID: "C05.14", Title: "every shard that is stored is started (requests for a stored but never started shard are swallowed)", Mod: core.ModCBP, Floor: 3, Run: c10_1})
 	register("C10", &core.Rule{ID: "C10.2", Title: "refuse iff limit≠0 ∧ size≥limit; refused requests reach no shard", Mod: core.ModCBP, Floor: 2, Run: c10_2})
 	register("C10", &core.Rule{ID: "C10.3", Title: "lookup key and export metadata from the same values, injectively, over all keys", Mod: core.ModCBP, Floor: 4, Run: c10_3})
 	register("C10", &core.Rule{ID: "C10.4", Title: "one batch and one queue per shard", Mod: core.ModCBP, Floor: 2, Run: c10_4})
@@ -250,15 +252,22 @@ func c10_1(c *core.Ctx, p *core.Prog) {
 			evs = append(evs, ev{"limit test", iff})
 		}
 	})
-	if len(limitIfs) == 0 {
+	admission := c.RuleID() == "C10.1"
+	if len(limitIfs) == 0 && admission {
 		c.Viol("limit-test", p.Pos(fn.Pos()), core.FuncName(fn), "no test of the shard count against the cardinality limit found in the multi-shard consume")
 	}
 	for k, e := range evs {
+		if !admission {
+			break
+		}
 		c.Check(held[e.ins], fmt.Sprintf("held|%s#%d", e.name, k+1), p.Pos(e.ins.Pos()), core.FuncName(fn), e.name+" executes with the admission mutex held on every path",
 			e.name+" can execute without the admission mutex held: two first arrivals of new combinations can both pass the limit test / both count themselves")
 	}
 	// one critical section: no Unlock between the limit test and the size update / LoadOrStore
 	for _, iff := range limitIfs {
+		if !admission {
+			break
+		}
 		for _, e := range evs {
 			if e.name == "limit test" {
 				continue
@@ -281,8 +290,57 @@ func c10_1(c *core.Ctx, p *core.Prog) {
 				"the admission mutex is released between the limit test and the "+e.name+": the limit can be overshot by concurrent first arrivals")
 		}
 	}
+	// order: no limit test (hence no refusal) after the shard has been stored; a stored shard is started and counted
+	for _, iff := range limitIfs {
+		if admission {
+			break
+		}
+		c.Check(!core.Reachable(fn, x.loadStore, iff), "order|limit-before-store", p.Pos(x.loadStore.Pos()), core.FuncName(fn),
+			"the limit test precedes LoadOrStore",
+			"the limit is tested after LoadOrStore: a refused combination leaves a stored shard that is never started nor counted; a retry of the same combination finds it, enqueues into a queue nobody reads and (with early return) is told success")
+	}
+	cutLoaded := map[core.Edge]bool{}
+	for _, r := range core.Referrers(x.loadStore) {
+		ex, ok := r.(*ssa.Extract)
+		if !ok || ex.Index != 1 {
+			continue
+		}
+		for _, b := range fn.Blocks {
+			iff := core.IfOf(b)
+			if iff == nil {
+				continue
+			}
+			cond := iff.Cond
+			neg := false
+			if u, ok := cond.(*ssa.UnOp); ok && u.Op == token.NOT {
+				cond, neg = u.X, true
+			}
+			if cond != ssa.Value(ex) {
+				continue
+			}
+			// cut the edge taken when loaded == true
+			idx := 0
+			if neg {
+				idx = 1
+			}
+			cutLoaded[core.Edge{From: b, To: b.Succs[idx]}] = true
+		}
+	}
+	for _, e := range evs {
+		if admission || (e.name != "shard start" && e.name != "size update") {
+			continue
+		}
+		target := e.ins
+		skip, _ := (core.PathQuery{Fn: fn, From: x.loadStore, Avoid: func(i ssa.Instruction) bool { return i == target }, CutEdges: cutLoaded, ExitReturnOnly: true}).Exists()
+		c.Check(!skip && len(cutLoaded) > 0, "stored|"+e.name, p.Pos(e.ins.Pos()), core.FuncName(fn),
+			"every path on which a new shard was stored performs the "+e.name+" before returning",
+			"a path from LoadOrStore (new shard stored) to a return skips the "+e.name+": the map holds a shard that is never started / not counted, and later requests for that combination are swallowed")
+	}
 	// size accessed only under the lock, package-wide
 	for _, f := range cbpFuncs(c, p) {
+		if !admission {
+			break
+		}
 		var h map[ssa.Instruction]bool
 		core.EachInstr(f, func(i ssa.Instruction) {
 			fa, ok := i.(*ssa.FieldAddr)
